@@ -8,7 +8,7 @@
 //! A profile picks one FAMILY per class; within a family the k-th atom of the class gets
 //! the k-th member, and members of one family are pairwise distinct (asserted), so that
 //! "different atoms => different bytes" holds by construction.
-use sha2::{Digest, Sha256};
+use sha2::{Digest, Sha256, Sha384, Sha512};
 
 #[derive(Clone, Debug)]
 pub struct Profile {
@@ -19,7 +19,7 @@ pub struct Profile {
     pub seed: u64,
 }
 
-pub const N_PW: usize = 10;
+pub const N_PW: usize = 13;
 pub const N_CID: usize = 4;
 pub const N_CTX: usize = 4;
 pub const N_ID: usize = 5;
@@ -105,7 +105,22 @@ impl Profile {
                     // binary, 32 bytes
                     8 => prng(s, "pwbin", k, 32),
                     // one byte
-                    _ => vec![k as u8],
+                    9 => vec![k as u8],
+                    // a long password and its digests (the HMAC / PBKDF2 "pre-hash" equivalence class: an
+                    // implementation that compresses long inputs without domain separation makes them equal)
+                    10 | 11 | 12 => {
+                        let base = prng(s, "pwdigest", 0, if self.pw == 12 { 129 } else { 65535 });
+                        match (self.pw, k) {
+                            (_, 1) => base,
+                            (11, 2) => Sha384::digest(&base).to_vec(),
+                            (_, 2) => Sha512::digest(&base).to_vec(),
+                            (11, 3) => Sha512::digest(&base)[..32].to_vec(),
+                            (_, 3) => Sha256::digest(&base).to_vec(),
+                            (_, 4) => Sha384::digest(&base).to_vec(),
+                            _ => Sha512::digest([&base[..], &[k as u8]].concat()).to_vec(),
+                        }
+                    }
+                    _ => vec![k as u8, 0x7f],
                 }
             }
             10..=19 => {
